@@ -7,7 +7,7 @@ usage: litmus.py [govc binary]"""
 import json, os, subprocess, sys
 V = os.path.dirname(os.path.dirname(os.path.abspath(__file__)))
 # okX functions the value model cannot prove (a write through one of two names of the same storage makes the other arbitrary)
-EXPECTED_INCOMPLETE = {"okAlias", "okPtrAlias", "okMap", "okConv", "okAnd", "okOr", "okGlobal"}
+EXPECTED_INCOMPLETE = {"okAlias", "okPtrAlias", "okMap", "okConv", "okAnd", "okOr", "okGlobal", "okBigShift"}
 def main():
     govc = sys.argv[1] if len(sys.argv) > 1 else os.path.join(V, "bin", "govc")
     out = os.path.join(os.path.expanduser("~"), ".cache", "verif-scratch", "litmus.json")
